@@ -4,11 +4,13 @@ import os
 import vlib
 
 PROPS = "Properties_C14"
-EXTRA_PROPS = ["Properties_errno"]   # errno -> status table regenerated from errno_status.c on every run
+EXTRA_PROPS = ["Properties_errno",       # errno -> status table regenerated from errno_status.c on every run
+               "Properties_leaf_copy"]   # zix_get_block_size and the stack-buffer size re-translated from the C source on every run
 
 
 def REGEN(ctx):
     vlib.regen_errno(ctx)
+    vlib.regen_leaf(ctx, ["Copy"])
 
 RULE = ("per configuration (source kind x size x destination state x option x allocator answer x block sizes x "
         "kernel-copy available/unavailable) the fault-free run, then one fault (error or short count) at every "
